@@ -463,6 +463,12 @@ class ExecMixin:
                 res = If(ok, x.val, IntVal(0))
                 if ak in ('ptr', 'chan', 'map'):
                     st.assume(Implies(ok, And(x.val >= 0, x.val <= st.alloc)))   # a boxed pointer is a pointer
+                if ak == 'ptr' and isinstance(ins.get('x'), dict) and ins['x'].get('type') == 'error':
+                    # well-formed error values: an `error` whose dynamic type is a pointer type holds a non-nil pointer.  netpoll's own
+                    # creation sites are checked on every run by the @errwf scan (check.py); for errors made by the standard library,
+                    # the kernel interface and user callbacks it is an assumption.
+                    st.assume(Implies(ok, x.val != 0))
+                    self.assumptions.add('error values are well formed: an error whose dynamic type is a pointer type holds a non-nil pointer (netpoll\'s own creation sites are checked by the @errwf scan; assumed of the standard library and of user code)')
         if ins['commaok']:
             return TupleV([res, ok])
         self.oblige(st, fr, 'safety.assert', short(at).split('.')[-1], ok, site)
